@@ -48,7 +48,14 @@ def build_world(E, version, shape, P, K, layout, decoy="none", dest_pre="empty",
     for d in SEARCH[layout]:
         fs.mkdirs(d)
     fs.add(SEARCH[layout][0] + "/unrelated.bin", ("u", 0), 123)
-    if decoy != "none":
+    if decoy == "partial":
+        # same name, same size, first piece identical to the real file, the rest different; listed before the real one
+        r0 = rels[0]
+        E.assume(sizes[r0] > P)
+        fid0 = cr.fid_of(shape, r0, names)
+        fs.add_content(SEARCH[layout][0] + "/A-decoy/" + r0.split("/")[-1],
+                       ABuf.of([("F", fid0, 0, P), ("F", ("decoy", 0), P, sizes[r0] - P)]))
+    elif decoy != "none":
         # a same-named, same-sized file with different bytes for payload file 0, in a sibling directory that
         # lists before ('A') or after ('zz') the real one
         r0 = rels[0]
@@ -121,7 +128,12 @@ def conc_world(params, model, workdir, seed, hostile=None):
         os.makedirs(workdir + d, exist_ok=True)
     refconc.write_file(workdir + SEARCH[layout][0] + "/unrelated.bin", b"u" * 123)
     decoy = params.get("decoy", "none")
-    if decoy != "none":
+    if decoy == "partial":
+        r0 = rels[0]
+        P_ = params["P"]
+        refconc.write_file(workdir + SEARCH[layout][0] + "/A-decoy/" + r0.split("/")[-1],
+                           data[r0][:P_] + refconc.content(("decoy", 0), sizes[r0], seed)[P_:])
+    elif decoy != "none":
         r0 = rels[0]
         sub = "/A-decoy/" if decoy == "before" else "/zz-decoy/"
         refconc.write_file(workdir + SEARCH[layout][0] + sub + r0.split("/")[-1], refconc.content(("decoy", 0), sizes[r0], seed))
